@@ -539,11 +539,10 @@ class Domain(BasicDomain):
             connectivity[k] = v
 
         # ... boundary
-        boundaries = Union(*[b for p in patches for b in p.boundary]).complement(Union(*boundaries))
-        if boundaries is None:
-            boundaries = ()
-        else :
-            boundaries = boundaries.as_tuple()
+        members    = lambda u: [] if u is None else (list(u.args) if isinstance(u, Union) else [u])
+        joined     = members(Union(*boundaries))
+        boundaries = members(Union(*[b for p in patches for b in members(p.boundary) if b not in joined]))
+        boundaries = tuple(boundaries)
 
         # ... interiors
         interiors       = Union(*[p.interior for p in patches])
